@@ -192,21 +192,55 @@ def run(ctx):
     calls = []
     h = hooks({"now()"}, calls)
     h["fnname:xml_bindings"] = lambda i, a, k, n: GenList([])
+    h.pop("fnname:get_xpath", None)  # real paths: placement code may compare them as strings
+    def _init_paths(el_):
+        el_.attrs.setdefault("_survey_element_xpath", None)
+        for ch_ in el_.attrs.get("children") or []:
+            _init_paths(ch_)
+    _init_paths(data)
     data.attrs["insert_xpaths"] = h["fnname:insert_xpaths"]
     it = ctx.interp("C10.R2", hooks=h)
     it.reset([])
     xdb = scls.methods["xml_descendent_bindings"]
-    out = [n for n in it.call_function(xdb, [data], {}, None, xdb.node) if isinstance(n, NodeVal)]
-    model_targets = sorted(n.attrs["ref"].attrs["of"].name for n in out if n.tag == "setvalue")
+    try:
+        out = [n for n in it.call_function(xdb, [data], {}, None, xdb.node) if isinstance(n, NodeVal)]
+    except Raised as e:
+        r2.fail("model placement[tree]", f"the model-level placement evaluates ({e.exc_name}{e.exc_args})", xdb.loc())
+        out = []
+    def _leaf(ref):
+        return ref.rsplit("/", 1)[-1] if isinstance(ref, str) else ref.attrs["of"].name
+    model_targets = sorted(_leaf(n.attrs["ref"]) for n in out if n.tag == "setvalue")
     r2.check(model_targets == ["q0", "q1"], "model placement[tree]", "the model holds setvalues exactly for dynamic defaults with no repeat ancestor", xdb.loc(), why_fail=f"{model_targets}")
     r2.check(all(n.attrs.get("event") == "odk-instance-first-load" for n in out), "model placement[tree]:event", "model setvalues fire on first load only", xdb.loc())
     ddh = rcls.methods["_dynamic_defaults_helper"]
     for rep, want in ((r1_, ["q2", "q3"]), (r2_, ["q4"])):
         it.reset([])
         got = [n for n in it.call_function(ddh, [rep], {"current": rep, "survey": data}, None, ddh.node) if isinstance(n, NodeVal)]
-        tg = sorted(n.attrs["ref"].attrs["of"].name for n in got)
+        tg = sorted(_leaf(n.attrs["ref"]) for n in got)
         r2.check(tg == want, f"repeat placement[{rep.name}]", f"the repeat body holds setvalues exactly for {want} (nested repeats handle their own)", ddh.loc(), why_fail=f"{tg}")
         r2.check(all(n.attrs.get("event") == "odk-instance-first-load odk-new-repeat" for n in got), f"repeat placement[{rep.name}]:event", "with the new-repeat event", ddh.loc())
+    # the same placement with real paths and names chosen to collide as strings: a question / group OUTSIDE the repeat
+    # whose name merely starts with the repeat's name is not inside it
+    from .. import trees
+    tsurvey, tnames, _tall = trees.build(ctx, ("data", [("q", "member_count", {"default": "now()"}), ("r", "member", [("q", "name", {"default": "now()"})]),
+                                                          ("g", "member_extras", [("q", "note", {"default": "now()"})]), ("q", "memberx", {"default": "now()"})]))
+    h2 = {"fnname:node": node_hook, "fnname:default_is_dynamic": lambda i, a, k, n: a[0] == "now()", "fnname:insert_xpaths": lambda i, a, k, n: next((x for x in a if isinstance(x, str)), None),
+          "fnname:xml_bindings": lambda i, a, k, n: GenList([])}
+    it2 = ctx.interp("C10.R2", hooks=h2)
+    it2.reset([])
+    try:
+        out2 = [n for n in it2.call_function(xdb, [tsurvey], {}, None, xdb.node) if isinstance(n, NodeVal)]
+        refs2 = sorted(n.attrs.get("ref") for n in out2 if n.tag == "setvalue")
+    except Raised as e:
+        refs2 = f"raises {e.exc_name}{e.exc_args}"
+    r2.check(refs2 == ["/data/member_count", "/data/member_extras/note", "/data/memberx"], "model placement[names sharing a prefix with the repeat]",
+             "elements outside the repeat keep their first-load setvalue in the model even when their path starts with the repeat's path as a string", xdb.loc(), why_fail=f"{refs2}")
+    it2.reset([])
+    try:
+        got2 = sorted(n.attrs.get("ref") for n in it2.call_function(ddh, [tnames["member"]], {"current": tnames["member"], "survey": tsurvey}, None, ddh.node) if isinstance(n, NodeVal))
+    except Raised as e:
+        got2 = f"raises {e.exc_name}"
+    r2.check(got2 == ["/data/member/name"], "repeat placement[names sharing a prefix with the repeat]", "the repeat body holds the setvalue of its own question only", ddh.loc(), why_fail=f"{got2}")
     # the repeat control appends those nodes to the <repeat> element
     rx = rcls.methods["xml_control"]
     apps = [c for c in walk_own(rx.node) if isinstance(c, ast.Call) and call_name(c) == "appendChild" and norm(c.func.value) == "repeat_node"]
